@@ -444,8 +444,11 @@ func pick(r *rand.Rand, ss []string) string { return ss[r.Intn(len(ss))] }
 // deepNestingDocs: schemas nested n levels deep (arrays, objects, alternating), in a TYPE and in a response body.
 func deepNestingDocs() [][]byte {
 	var out [][]byte
-	for _, n := range []int{50, 400, 999, 1000, 1001, 2500, 5200, 12000} {
+	for _, n := range []int{50, 400, 999, 1000, 1001, 2500, 5200, 12000, 150000, 1000000} {
 		for kind := 0; kind < 3; kind++ {
+			if n > 12000 && kind == 2 {
+				continue
+			}
 			var open, close strings.Builder
 			for i := 0; i < n; i++ {
 				switch {
